@@ -209,59 +209,68 @@ def invertConnect (c : List (Nat × List Nat)) : List (Nat × List Nat) :=
     | some ts => Assoc.insert acc src (ts ++ [e.1])
     | none => Assoc.insert acc src [e.1]) acc) []
 
+/-- add to the running gradient (last of `gs`) the gradient recorded for skip target `j` -/
+def skipGradStep (n : Nat) (r : Except Err (List (Tensor α))) (j : Nat) : Except Err (List (Tensor α)) :=
+  match r with
+  | .error e => .error e
+  | .ok gs =>
+    let j' := if j = n then j - 1 else j
+    match checkedSub n j' with
+    | .error e => .error e
+    | .ok d => match checkedSub d 1 with
+      | .error e => .error e
+      | .ok k =>
+        match L.get gs k, gs.getLast? with
+        | .ok g, some lastg =>
+          match lastg.add g with
+          | .ok s => .ok (gs.dropLast ++ [s])
+          | .error e => .error e
+        | .error e, _ => .error e
+        | _, none => .error .index
+
+/-- add the gradients of the positions this position's input was skipped to -/
+def withSkips (n : Nat) (inv : List (Nat × List Nat)) (idx : Nat) (grads : List (Tensor α)) :
+    Except Err (List (Tensor α)) :=
+  match Assoc.find? inv idx with
+  | none => .ok grads
+  | some targets => targets.foldl (skipGradStep n) (.ok grads)
+
+/-- backward of one unrolled inner layer (max-pool inside a block is not supported by the library) -/
+def innerBackward (il : InnerLayer α) (g input output : Tensor α) :
+    Except Err (Tensor α × Tensor α × Option (Tensor α)) :=
+  match il with
+  | .dense l => l.backward g input output
+  | .conv l => l.backward g input output
+  | .deconv l => l.backward g input output
+  | .maxpool _ => .error .reject
+
+/-- one position of the reverse walk over the unrolled block -/
+def backwardStep (n : Nat) (inv : List (Nat × List Nat)) (unactivated activated : List (Tensor α))
+    (st : Except Err (List (Tensor α) × List (Tensor α) × List (Option (Tensor α)))) (il : Nat × InnerLayer α) :
+    Except Err (List (Tensor α) × List (Tensor α) × List (Option (Tensor α))) :=
+  match st with
+  | .error e => .error e
+  | .ok (grads, wgs, bgs) =>
+    match L.get activated il.1, L.get unactivated il.1 with
+    | .error e, _ => .error e
+    | _, .error e => .error e
+    | .ok input, .ok output =>
+      match withSkips n inv il.1 grads with
+      | .error e => .error e
+      | .ok grads =>
+        match grads.getLast? with
+        | none => .error .index
+        | some g =>
+          match innerBackward il.2 g input output with
+          | .error e => .error e
+          | .ok (ig, wg, bg) => .ok (grads ++ [ig], wgs ++ [wg], bgs ++ [bg])
+
 /-- `Feedback::backward` → `(input gradient, weight gradients, bias gradients)` of the unrolled block,
     last layer first -/
 def backward (f : Feedback α) (gradient : Tensor α) (unactivated activated : List (Tensor α)) :
     Except Err (Tensor α × List (Tensor α) × List (Option (Tensor α))) :=
-  let n := f.layers.length
-  let inv := invertConnect f.connect
-  let step (st : Except Err (List (Tensor α) × List (Tensor α) × List (Option (Tensor α)))) (il : Nat × InnerLayer α) :=
-    match st with
-    | .error e => .error e
-    | .ok (grads, wgs, bgs) =>
-      let idx := il.1
-      match L.get activated idx, L.get unactivated idx with
-      | .error e, _ => .error e
-      | _, .error e => .error e
-      | .ok input, .ok output =>
-        -- add the gradients of the positions this position's input was skipped to
-        let withSkips : Except Err (List (Tensor α)) :=
-          match Assoc.find? inv idx with
-          | none => .ok grads
-          | some targets =>
-            targets.foldl (fun r j =>
-              match r with
-              | .error e => .error e
-              | .ok gs =>
-                let j' := if j = n then j - 1 else j
-                match checkedSub n j' with
-                | .error e => .error e
-                | .ok d => match checkedSub d 1 with
-                  | .error e => .error e
-                  | .ok k =>
-                    match L.get gs k, gs.getLast? with
-                    | .ok g, some lastg =>
-                      match lastg.add g with
-                      | .ok s => .ok (gs.dropLast ++ [s])
-                      | .error e => .error e
-                    | .error e, _ => .error e
-                    | _, none => .error .index) (.ok grads)
-        match withSkips with
-        | .error e => .error e
-        | .ok grads =>
-          match grads.getLast? with
-          | none => .error .index
-          | some g =>
-            let r : Except Err (Tensor α × Tensor α × Option (Tensor α)) :=
-              match il.2 with
-              | .dense l => l.backward g input output
-              | .conv l => l.backward g input output
-              | .deconv l => l.backward g input output
-              | .maxpool _ => .error .reject
-            match r with
-            | .error e => .error e
-            | .ok (ig, wg, bg) => .ok (grads ++ [ig], wgs ++ [wg], bgs ++ [bg])
-  match (List.zip (List.range n) f.layers).reverse.foldl step (.ok ([gradient], [], [])) with
+  match (List.zip (List.range f.layers.length) f.layers).reverse.foldl
+      (backwardStep f.layers.length (invertConnect f.connect) unactivated activated) (.ok ([gradient], [], [])) with
   | .error e => .error e
   | .ok (grads, wgs, bgs) =>
     match grads.getLast? with
